@@ -34,7 +34,7 @@ for pid in sorted(os.listdir(src)):
                 rc, o = sh("/venv/bin/python -m pytest -q -p no:cacheprovider --timeout=900 2>&1 | tail -1", cwd=wt, env=env)
                 res["tests"] = o.strip()
                 for c in checks:
-                    rc, o = sh("./vcheck run %s %s" % (c, "" if runs == "tier" else "--runs " + runs), cwd="/verif", env=dict(os.environ, VERIF_REPO=wt, VERIF_NO_EVIDENCE="1"))
+                    rc, o = sh("./vcheck run %s --budget 300 %s" % (c, "" if runs == "tier" else "--runs " + runs), cwd="/verif", env=dict(os.environ, VERIF_REPO=wt, VERIF_NO_EVIDENCE="1"))
                     lines = [l.strip() for l in o.splitlines() if "check=" in l or "HARNESS" in l]
                     res["checks"][c] = {"rc": rc, "lines": lines[:3]}
                     if rc != 0:
